@@ -53,9 +53,13 @@ def measure(prop, excl):
         rec = {"anchored": rel in anchored, "regions": 0, "unentered": [], "excluded": [], "never_instantiated": [],
                "never_instantiated_excluded": []}
         seen = set()
+        outer_end = 0
         for name, a, b in C.source_fns(path):
             if any(t0 <= a <= t1 for t0, t1 in tests):
                 continue
+            if a <= outer_end:
+                continue    # a fn item nested in the previous one: its regions were counted with the enclosing fn
+            outer_end = b
             inside = {k: c for k, c in r.items() if a <= k[0] <= b and k not in seen}
             # nested fn items (closures are not fn items) are rare here; a region belongs to the first fn that spans it
             seen |= set(inside)
